@@ -8,6 +8,8 @@ THEOREMS = ["ZwVerif.C02." + t for t in
 
 
 def run(ctx):
+    if ctx.replay:
+        return dwcorr.run_replay(ctx)
     ctx.prove("ZwVerif.Props.C02", THEOREMS)
     fs = dwcorr.Forests(ctx)
     rng = ctx.rng
@@ -28,7 +30,7 @@ def run(ctx):
                                             "raw entry pos"])
             if crashes or recs[0].err:
                 ctx.violation("the library failed on a generated forest (%d units): %s" % (len(desc["units"]), recs[0].err or crashes),
-                              {"stream": "C02-forest", "input": {"forest": desc, "query": dwcorr.RAW_QUERY}})
+                              {"stream": "C02-forest", "input": fs.inp(desc, path, dwcorr.RAW_QUERY)})
                 continue
             got = [dwcorr.normalize(r) for r in recs[0].res]
             model = fs.model(desc, ["FRAW"])[0]
@@ -50,11 +52,11 @@ def run(ctx):
                 problems.append("`raw entry` positions are not 0..n-1: %r" % poss[:10])
             if problems:
                 ctx.violation("forest with %d units: %s" % (len(desc["units"]), "; ".join(problems)),
-                              {"stream": "C02-forest", "input": {"forest": desc, "query": dwcorr.RAW_QUERY}, "got": got[:50],
+                              {"stream": "C02-forest", "input": fs.inp(desc, path, dwcorr.RAW_QUERY), "got": got[:50],
                                "expected": want[:50], "theorem": "ZwVerif.C02.iter_is_preorder"})
             elif model != want:
                 ctx.violation("the Lean forest model disagrees with the ground truth (and the library agrees with the truth)",
-                              {"stream": "C02-forest", "input": {"forest": desc}, "model": model[:20], "expected": want[:20],
+                              {"stream": "C02-forest", "input": fs.inp(desc, path, None), "model": model[:20], "expected": want[:20],
                                "correspondence": "ZwVerif.Model.Dwarf vs forest description"}, found_input=False)
             else:
                 ok += 1
